@@ -81,6 +81,9 @@ func emacsSeeds() []Seed {
 	with("esc-prefix", "\x1b")
 	with("quoted-insert-wait", "\x16")
 	with("multiline", "\x01", "(", "\r", "x")
+	seeds = append(seeds,
+		Seed{Name: "two-lines/mid", Pre: Keys("(ab", "\r", "cd", "\x02")},
+		Seed{Name: "empty-line-between", Pre: Keys("(a", "\r", "\r", "b", "\x10")})
 	return seeds
 }
 
@@ -116,6 +119,9 @@ func viSeeds() []Seed {
 	with("history-walk", "k")
 	with("search", "/")
 	with("multiline", "0", "i", "(", "\r", "x", "\x1b")
+	seeds = append(seeds,
+		Seed{Name: "cmd/two-lines", Pre: Keys("(ab", "\r", "cd", "\x1b", "k")},
+		Seed{Name: "cmd/empty-line-between", Pre: Keys("(a", "\r", "\r", "b", "\x1b", "k")})
 	return seeds
 }
 
